@@ -6,12 +6,15 @@ echo "# Seeded changes and which check catches them" > $OUT
 echo "" >> $OUT
 echo "Each row: a change made by a fresh sub-agent that saw only the property text and a scratch worktree (64 tests pass with it, its own demo fails with it and passes without). Result of \`tools/run_seed.sh <seed> quick\` on $(date -u +%Y-%m-%d) (patch applied to /repo, check run, patch reverted)." >> $OUT
 echo "" >> $OUT
-echo "| seed | change | exit | how it is reported | first line of the report |" >> $OUT
+echo "| seed | change | exit code under VERIF_SEED 0 and 1 | how it is reported (seed 0) | first line of the report (seed 0) |" >> $OUT
 echo "|---|---|---|---|---|" >> $OUT
 for d in seeded/*/; do
   S=$(basename $d)
-  tools/run_seed.sh $S quick > /tmp/seedtab_$S.out 2>&1
+  VERIF_SEED=1 tools/run_seed.sh $S quick > /tmp/seedtab1_$S.out 2>&1
+  RC1=$(grep -o "rc=[0-9]*" /tmp/seedtab1_$S.out | head -1)
+  VERIF_SEED=0 tools/run_seed.sh $S quick > /tmp/seedtab_$S.out 2>&1
   RC=$(grep -o "rc=[0-9]*" /tmp/seedtab_$S.out | head -1)
+  RC="$RC (seed 0), $RC1 (seed 1)"
   if grep -q "no-failing-input-found" /tmp/seedrun_$S.out && ! grep "^VIOLATION" /tmp/seedrun_$S.out | grep -qv "no-failing-input-found"; then HOW="proof/correspondence broken, no-failing-input-found"; elif grep -q "^VIOLATION" /tmp/seedrun_$S.out; then HOW="failing input (replay file)"; else HOW="NOT CAUGHT"; fi
   FIRST=$(grep "failing input\|no longer checks" /tmp/seedrun_$S.out | head -1 | sed 's/|/\\|/g' | cut -c1-260)
   SUM=$(python3 -c "import json;print(json.load(open('$d/meta.json')).get('summary','')[:200].replace('|','/').replace('\n',' '))")
